@@ -163,3 +163,62 @@ theorem transL_lt (st : Option Nat) (hst : ∀ s, st = some s → s < 256) (x : 
     simpa using this
 
 end Uniseg.Range
+
+namespace Uniseg.Range
+open Uniseg Uniseg.Gen
+
+/-- the verdict field of a rule cell has two bits -/
+theorem ruleGet_verdict_lt (packed : Nat) (st : Option Nat) (p : Nat) (r : Nat × Nat × Nat)
+    (hr : ruleGet packed st p = some r) : r.2.1 < 4 := by
+  unfold ruleGet at hr
+  cases st with
+  | none => cases hr
+  | some s =>
+    simp only at hr
+    split at hr
+    · cases hr
+    · cases hr
+      simp only
+      exact Nat.lt_of_le_of_lt Nat.and_le_right (by decide)
+
+theorem merge_verdict_lt (packed anyState anyProp : Nat) (dflt : Nat × Nat × Nat) (hd : dflt.2.1 < 4)
+    (st : Option Nat) (p : Nat) : (merge packed anyState anyProp dflt st p).2.1 < 4 := by
+  unfold merge
+  split
+  · rename_i t ht; exact ruleGet_verdict_lt packed st p t ht
+  · split
+    · rename_i a b c d e f h1 h2
+      have v1 := ruleGet_verdict_lt packed st anyProp _ h1
+      have v2 := ruleGet_verdict_lt packed (some anyState) p _ h2
+      split
+      · exact v1
+      · exact v2
+    · rename_i t h1 h2; exact ruleGet_verdict_lt packed st anyProp t h1
+    · rename_i t h1 h2; exact ruleGet_verdict_lt packed (some anyState) p t h2
+    · exact hd
+
+theorem lbFin_verdict_lt (x : LbIn) (a b : Bool) (res : Nat × Nat) (h : res.2 < 4) : (lbFin x a b res).2 < 4 := by
+  unfold lbFin
+  dsimp only
+  split
+  · decide
+  · exact h
+
+set_option maxHeartbeats 4000000 in
+/-- every line verdict is one of LineDontBreak, LineCanBreak, LineMustBreak, or at least fits the
+two bits of `MaskLine` -/
+theorem transLCore_verdict_lt (st : Option Nat) (a b : Bool) (x : LbIn) (nu : Bool) :
+    (transLCore st a b x nu).2 < 4 := by
+  have hm : (merge lbPacked lbAny prAny (lbAny, LineCanBreak, 310) st x.prop).2.1 < 4 :=
+    merge_verdict_lt lbPacked lbAny prAny _ (by decide) st x.prop
+  unfold transLCore
+  apply lbFin_verdict_lt
+  dsimp only
+  repeat' split
+  all_goals (try dsimp only)
+  all_goals first | decide | exact hm
+
+theorem transL_verdict_lt (st : Option Nat) (x : LbIn) (nu : Bool) : (transL st x nu).2 < 4 :=
+  transLCore_verdict_lt _ _ _ _ _
+
+end Uniseg.Range
